@@ -117,8 +117,31 @@ func fillManySmall(g *gen.G) []*pb.Command {
 
 var manySmall atomic.Int64
 
+// fillLongKeys: several MiB of KEYS (1000-byte keys, tiny values): a keys-only read of it does not
+// fit one message either.
+func fillLongKeys(g *gen.G) []*pb.Command {
+	var cmds []*pb.Command
+	n := 4600 + g.R.Intn(2500)
+	for i := 0; i < n; {
+		batch := &pb.Command{Type: pb.Command_PUT_BATCH}
+		for j := 0; j < 200 && i < n; j++ {
+			k := []byte(fmt.Sprintf("%01000d", i))
+			batch.Batch = append(batch.Batch, &pb.KeyValue{Key: k, Value: []byte{byte('a' + i%26)}})
+			i++
+		}
+		cmds = append(cmds, batch)
+	}
+	return cmds
+}
+
+var longKeys atomic.Int64
+
 func fill(g *gen.G, big bool) []*pb.Command {
 	var cmds []*pb.Command
+	if big && (g.R.Intn(5) == 0 || longKeys.CompareAndSwap(0, 1)) {
+		longKeys.Add(1)
+		return fillLongKeys(g)
+	}
 	if big && g.R.Intn(4) == 0 {
 		manySmall.Add(1)
 		return fillManySmall(g)
